@@ -52,7 +52,7 @@ theorem release_eq (i : Inst) (s : State) :
           ((s.inProc j && decide (s.finish (s.nextOp j) ≤ s.time)) && (s.nextOp j == i.endOp j))
         done := allUpTo i.J (fun j => s.jobDone j ||
           ((s.inProc j && decide (s.finish (s.nextOp j) ≤ s.time)) && (s.nextOp j == i.endOp j))) } := by
-  simp only [release, evalNat_eq]
+  simp only [release, evalNat_eq, Params.fjspReleaseGuardsInProcess, if_true]
   rfl
 
 theorem translate_eq (i : Inst) (s : State) (a' : Nat) :
@@ -92,6 +92,10 @@ theorem noOpSel_eq (x : Row × Nat) : noOpSel x = ((x.2 == 0) && !x.1.2.done) :=
   simp only [noOpSel, isNoOp_eq]
 theorem reqSel_eq (x : Row × Nat) : reqSel x = (!(x.2 == 0) && !x.1.2.done) := by
   simp only [reqSel, isNoOp_eq]
+
+theorem noOpMask_eq (i : Inst) (s : State) :
+    noOpMask i s = if i.maskNoOps then s.done else (anyUpTo i.J s.inProc && !s.done) || s.done := by
+  simp only [noOpMask, Params.jsspNoOpKeepsDone, Params.fjspNoOpKeepsDone, ite_self, Bool.true_and]
 
 /-! ### generic counting lemmas -/
 
@@ -813,7 +817,7 @@ theorem anyInProc_busy {i : Inst} {s : State} (hinv : Inv i s) (h : anyUpTo i.J 
 /-- what the mask guarantees about a wait action in an unfinished state -/
 theorem wait_busy {i : Inst} {s : State} (hinv : Inv i s) (hnd : s.done = false)
     (hm : mask i s 0 = true) : i.maskNoOps = false ∧ ∃ m, m < i.M ∧ s.time < s.busy m := by
-  simp only [mask, if_true, noOpMask] at hm
+  simp only [mask, if_true, noOpMask_eq] at hm
   cases hmn : i.maskNoOps with
   | true => simp [hmn, hnd] at hm
   | false =>
@@ -913,7 +917,7 @@ theorem not_stepComplete_of_wait_allowed {i : Inst} (hwf : WF i) (hmno : i.maskN
     obtain ⟨j, hj, hip⟩ := inProc_of_busy hinv hb
     simp only [stepComplete, Bool.and_eq_true, Bool.not_eq_true'] at hsc
     have h0 : mask i s 0 = true := by
-      simp only [mask, if_true, noOpMask, hmno, Bool.false_eq_true, if_false, hsc.2, Bool.not_false,
+      simp only [mask, if_true, noOpMask_eq, hmno, Bool.false_eq_true, if_false, hsc.2, Bool.not_false,
         Bool.and_true, Bool.or_false]
       exact anyUpTo_iff.mpr ⟨j, hj, hip⟩
     have h1 := anyUpTo_eq_false.mp hsc.1 0 (by unfold nAct; split <;> omega)
